@@ -68,7 +68,7 @@ var statQueries int
 var statSolverTime float64
 
 // solve races the solvers on one script. wantModel adds (get-model) handling for sat answers.
-func solve(script string, timeoutS int, only string) solveResult {
+func solveSeed(script string, timeoutS int, only string, seed int) solveResult {
 	sum := sha256.Sum256([]byte(script))
 	file := filepath.Join(workDir, fmt.Sprintf("%s-%d.smt2", hex.EncodeToString(sum[:8]), atomic.AddInt64(&fileCtr, 1)))
 	if err := os.WriteFile(file, []byte(script), 0o644); err != nil {
@@ -97,7 +97,7 @@ func solve(script string, timeoutS int, only string) solveResult {
 				ch <- one{s.name, "cancelled", "", 0}
 				return
 			}
-			args := s.args(file, timeoutS, solverSeed)
+			args := s.args(file, timeoutS, seed)
 			cctx, ccancel := context.WithTimeout(ctx, time.Duration(timeoutS+5)*time.Second)
 			defer ccancel()
 			cmd := exec.CommandContext(cctx, args[0], args[1:]...)
@@ -171,5 +171,17 @@ func solveStaged(script string, timeoutS int) solveResult {
 			return r
 		}
 	}
-	return solve(script, timeoutS, "")
+	r := solve(script, timeoutS, "")
+	// solver heuristics depend on the random seed: an obligation is reported as undischarged only
+	// after it resisted three different seeds on all three solvers
+	for extra := 1; extra <= 2 && r.Result != "unsat" && r.Result != "sat"; extra++ {
+		r2 := solveSeed(script, timeoutS, "", solverSeed+7919*extra)
+		r2.TimeS += r.TimeS
+		r = r2
+	}
+	return r
+}
+
+func solve(script string, timeoutS int, only string) solveResult {
+	return solveSeed(script, timeoutS, only, solverSeed)
 }
